@@ -48,3 +48,138 @@ pub fn block_on<F: std::future::Future>(fut: F) -> F::Output {
 		assert!(n < 4, "future did not complete: it waits on something the harness does not model");
 	}
 }
+
+// ---- allocation monitor (C19): `vec![0u8; n]` must stay in proportion to the input size ----
+pub static mut ALLOC_LIMIT: usize = usize::MAX;
+
+pub fn set_alloc_limit(input_len: usize) {
+	unsafe { ALLOC_LIMIT = 8 * input_len + 64 };
+}
+
+/// stands in for `alloc::vec::from_elem::<T>` (what `vec![elem; n]` expands to)
+pub fn vec_from_elem<T: Clone>(elem: T, n: usize) -> Vec<T> {
+	let limit = unsafe { ALLOC_LIMIT };
+	assert!(n <= limit, "allocation out of proportion to the input size (announced length is trusted)");
+	let mut v = Vec::with_capacity(n);
+	let mut i = 0;
+	while i < n {
+		v.push(elem.clone());
+		i += 1;
+	}
+	v
+}
+
+// ---- libm model (geo harnesses): tan/ln/exp/atan are foreign functions Kani cannot execute. They become
+// nondeterministic functions that are monotone (non-strictly) and consistent across calls, plus the range
+// facts the repository's formulas rely on. Claims that use it hold *given* monotone libm functions.
+pub struct MonoFn {
+	pub n: usize,
+	pub xs: [f64; 6],
+	pub rs: [f64; 6],
+}
+
+impl MonoFn {
+	pub const fn new() -> Self {
+		MonoFn { n: 0, xs: [0.0; 6], rs: [0.0; 6] }
+	}
+	fn call(&mut self, x: f64, increasing: bool) -> f64 {
+		let r: f64 = kani::any();
+		kani::assume(!r.is_nan());
+		let mut i = 0;
+		while i < self.n {
+			let (xi, ri) = (self.xs[i], self.rs[i]);
+			if x == xi {
+				kani::assume(r == ri);
+			} else if (x < xi) == increasing {
+				kani::assume(r <= ri);
+			} else {
+				kani::assume(r >= ri);
+			}
+			i += 1;
+		}
+		assert!(self.n < 6, "libm model: too many calls");
+		self.xs[self.n] = x;
+		self.rs[self.n] = r;
+		self.n += 1;
+		r
+	}
+}
+
+pub static mut TAN: MonoFn = MonoFn::new();
+pub static mut LN: MonoFn = MonoFn::new();
+pub static mut EXP: MonoFn = MonoFn::new();
+pub static mut ATAN: MonoFn = MonoFn::new();
+
+#[allow(static_mut_refs)]
+pub fn f64_tan(x: f64) -> f64 {
+	// the repository only evaluates tan on [0, pi/2] (latitude in [-90, 90])
+	assert!(x >= 0.0 && x <= 1.5707963267948968, "tan model: argument outside [0, pi/2]");
+	let r = unsafe { TAN.call(x, true) };
+	if x == 0.0 {
+		kani::assume(r == 0.0);
+	} else {
+		kani::assume(r > 0.0);
+	}
+	// tan(pi/4) = 1 up to rounding, tan is finite at the f64 nearest to pi/2
+	kani::assume(r.is_finite());
+	if x < 0.78 {
+		kani::assume(r < 1.0);
+	}
+	if x > 0.79 {
+		kani::assume(r > 1.0);
+	}
+	r
+}
+
+#[allow(static_mut_refs)]
+pub fn f64_ln(x: f64) -> f64 {
+	assert!(x >= 0.0, "ln model: negative argument");
+	let r = unsafe { LN.call(x, true) };
+	if x == 0.0 {
+		kani::assume(r == f64::NEG_INFINITY);
+	} else {
+		kani::assume(r.is_finite() || x == f64::INFINITY);
+		if x < 1.0 {
+			kani::assume(r < 0.0);
+		}
+		if x > 1.0 {
+			kani::assume(r > 0.0);
+		}
+		if x == 1.0 {
+			kani::assume(r == 0.0);
+		}
+	}
+	r
+}
+
+#[allow(static_mut_refs)]
+pub fn f64_exp(x: f64) -> f64 {
+	let r = unsafe { EXP.call(x, true) };
+	kani::assume(r >= 0.0);
+	if x == 0.0 {
+		kani::assume(r == 1.0);
+	}
+	if x > 0.0 {
+		kani::assume(r > 1.0);
+	}
+	if x < 0.0 {
+		kani::assume(r < 1.0);
+	}
+	r
+}
+
+#[allow(static_mut_refs)]
+pub fn f64_atan(x: f64) -> f64 {
+	let r = unsafe { ATAN.call(x, true) };
+	kani::assume(r > -1.5707963267948968 && r < 1.5707963267948968);
+	if x == 0.0 {
+		kani::assume(r == 0.0);
+	}
+	if x > 0.0 {
+		kani::assume(r > 0.0);
+	}
+	if x == 1.0 {
+		kani::assume(r == 0.7853981633974483);
+	}
+	r
+}
